@@ -158,12 +158,41 @@ package server
 //@   loop 2 decreases len(journal.Transactions) - rangeindex
 
 // The handler: the transaction folds come first; directive and comment-block folds are found by scanning the raw lines
-// (strings.Split / TrimSpace over the text, no relation to the syntax tree): not under contract.
-//@ trusted findDirectiveFolds
-//@ trusted findCommentBlockFolds
+// (strings.Split / TrimSpace over the text, no relation to the syntax tree).
+// Since strings.Split by "\n" is modelled (NL lines), the two scans are under contract for what C08 says about any
+// range: inside the document, start before end; comment blocks are pairwise apart, directive folds start in ascending order.
+//@ func isDirectiveLine
+//@   props C08 C06
+//@   loop 1 decreases len(directives) - rangeindex
+//@ func isIndentedLine
+//@   props C08 C06
+//@   effects none
+//@ func findDirectiveFolds
+//@   props C08 C06
+//@   requires len(content) < 4294967295
+//@   ensures [C08:directive_fold_inside] forall k int :: {result[k]} 0 <= k && k < len(result) ==> result[k].StartLine < result[k].EndLine && result[k].EndLine < NL(content)
+//@   ensures [C08:directive_folds_ascending] forall k int :: {result[k]} 0 < k && k < len(result) ==> result[k - 1].StartLine < result[k].StartLine
+//@   loop 1 invariant 0 <= i && i <= len(lines) && len(lines) == NL(content) && (fresh(ranges) || len(ranges) == 0)
+//@   loop 1 invariant forall k int :: {ranges[k]} 0 <= k && k < len(ranges) ==> ranges[k].StartLine < ranges[k].EndLine && ranges[k].EndLine < NL(content) && ranges[k].StartLine < i
+//@   loop 1 invariant forall k int :: {ranges[k]} 0 < k && k < len(ranges) ==> ranges[k - 1].StartLine < ranges[k].StartLine
+//@   loop 1 decreases len(lines) - i
+//@   loop 2 invariant 0 <= i && i < len(lines) && i < j && j <= len(lines) && startLine == i && i <= endLine && endLine < j && len(lines) == NL(content)
+//@   loop 2 decreases len(lines) - j
+//@ func findCommentBlockFolds
+//@   props C08 C06
+//@   requires len(content) < 4294967295
+//@   ensures [C08:comment_fold_inside] forall k int :: {result[k]} 0 <= k && k < len(result) ==> result[k].StartLine < result[k].EndLine && result[k].EndLine < NL(content)
+//@   ensures [C08:comment_folds_apart] forall k int :: {result[k]} 0 < k && k < len(result) ==> result[k - 1].EndLine < result[k].StartLine
+//@   loop 1 invariant 0 <= i && i <= len(lines) && len(lines) == NL(content) && (fresh(ranges) || len(ranges) == 0)
+//@   loop 1 invariant forall k int :: {ranges[k]} 0 <= k && k < len(ranges) ==> ranges[k].StartLine < ranges[k].EndLine && ranges[k].EndLine < NL(content) && ranges[k].EndLine < i
+//@   loop 1 invariant forall k int :: {ranges[k]} 0 < k && k < len(ranges) ==> ranges[k - 1].EndLine < ranges[k].StartLine
+//@   loop 1 decreases len(lines) - i
+//@   loop 2 invariant 0 <= i && i < len(lines) && i < j && j <= len(lines) && startLine == i && i <= endLine && endLine < j && len(lines) == NL(content)
+//@   loop 2 decreases len(lines) - j
 //@ func (*Server).FoldingRanges
 //@   props C08
 //@   requires s != nil && params != nil && DocSmall(s, params.TextDocument.URI)
+//@   ensures [C08:every_fold_well_formed] forall k int :: {result0[k]} 0 <= k && k < len(result0) ==> result0[k].StartLine < result0[k].EndLine
 
 //@ func positionInRange
 //@   props C08
